@@ -104,10 +104,26 @@ S7 == UNION {{Mk("keys", r, 1, "none", "after", Rules.std, << tin, << "pkh" >> >
 S8 == LET Pads == {<< "required", "default" >>, << "default", "required" >>, << "required1", "required" >>}
           Pvs == {<< "none", "after" >>} \cup ({"V3", "V4", "V5", "V6"} \X {"before", "after"})
       IN  UNION {{Mk("required", r, 1, pv[1], pv[2], Rules.std, << << "pkh" >>, tout >>, SNone, o, i, pad[1], pad[2], FALSE, "exact", d) :
-                    r \in Regimes, pv \in Pvs, pad \in Pads, d \in {0, 0 - 1}} :
+                    r \in Regimes, pv \in Pvs, pad \in Pads, d \in {0}} :
                  <<tout, o, i>> \in {<< >>} \X {ONone, <<1,0,0>>, <<0,0,1>>} \X {INone, <<0,1>>}}
 
-Domain == S1 \cup S2 \cup S3 \cup S4 \cup S5 \cup S6 \cup S7 \cup S8
+\* S9: Orchard-family bundles with several spends AND several outputs, where "spends + outputs" (cross-address
+\* transfers disabled: the Orchard pool from NU6.3, whatever transaction version is proposed) and
+\* "max(spends, outputs)" (Ironwood; Orchard before NU6.3) differ, padded and unpadded, against the proposed versions
+S9 == LET T9 == {TNone, << << "pkh" >>, << >> >>}
+          Pad2 == {"default", "unpadded"}
+          D3 == {0, 1, 0 - 1}
+          PvO == {<< "none", "after" >>} \cup ({"V5", "V6"} \X {"before", "after"})
+          PvI == {<< "none", "after" >>} \cup ({"V6"} \X {"before", "after"})
+          Pv5 == {<< "none", "after" >>} \cup ({"V5"} \X {"before", "after"})
+      IN  {Mk("crossaddr", "nu63", h, pv[1], pv[2], Rules.std, t, SNone, o, INone, pad, "default", FALSE, "exact", d) :
+              h \in {0, 1}, pv \in PvO, t \in T9, o \in {<<1,0,2>>, <<2,0,1>>, <<2,0,2>>, <<3,0,1>>}, pad \in Pad2, d \in D3}
+          \cup {Mk("crossaddr", "nu63", h, pv[1], pv[2], Rules.std, t, SNone, ONone, i, "default", pad, FALSE, "exact", d) :
+              h \in {0, 1}, pv \in PvI, t \in T9, i \in {<<1,2>>, <<2,1>>, <<2,2>>, <<3,1>>}, pad \in Pad2, d \in D3}
+          \cup {Mk("crossaddr", "nu5", h, pv[1], pv[2], Rules.std, t, SNone, o, INone, pad, "default", FALSE, "exact", d) :
+              h \in {0, 1}, pv \in Pv5, t \in T9, o \in {<<1,2,0>>, <<2,1,0>>, <<2,2,0>>}, pad \in Pad2, d \in D3}
+
+Domain == S1 \cup S2 \cup S3 \cup S4 \cup S5 \cup S6 \cup S7 \cup S8 \cup S9
 
 Case(r) ==
     LET x == BuildSpec(r)
@@ -140,6 +156,7 @@ ThPaddingCovers == done => PaddingCovers(q)
 ThTrichotomy == done => Trichotomy(q)
 ThNoInputs == done => NoInputs(q)
 ThSupportIsStructural == done => SupportIsStructural(q)
+ThCountsIgnoreProposedVersion == done => CountsIgnoreProposedVersion(q)
 \* amounts stay inside TLC's integers and inside what the lattice intends
 ThAmountsSane == done => /\ SumIn(q) < 100000000 /\ SumOut(q) < 100000000
                          /\ \A k \in 1..InCount(q) : InVal(q, k) > 0
